@@ -6,8 +6,16 @@ NSGAII run whose `evaluator.evaluate` calls are recorded (the generations are th
 the implementation: every Individual reachable from the submitted designs (vector, costs, costs_signed,
 state, parents, children, features['sensitivity'|'gradient']), the objective's call log, the designs each
 `run()` call post-processes, the lengths of the evaluator's two work lists at the end.  The model is given
-the batches (vectors at submission), the tolerances, the declared number of objectives and the objective /
-sign conversion as a recorded table, and must reproduce all of it bit for bit.
+the batches (vectors at submission), the tolerances, the declared number of objectives, the objective /
+sign conversion as a recorded table and the tape of transient failures, and must reproduce all of it bit for bit.
+
+Transient failures: the harness's objective raises RuntimeError / TimeoutError at scripted GLOBAL call numbers
+(on designs and on neighbours, runs of 1..4 consecutive numbers, never 5); Job handles them by re-drawing the
+individual (gen_vector, recorded through a proxy of artap.job.VectorAndNumbers); the tape (call number, re-drawn
+vector) is an input of the model, exactly as the oracle tape of Model/Job.v.  The direct oracle judges every design
+against its FINAL vector.  Open finding F13: a neighbour whose OWN evaluation failed is re-drawn at a random point;
+the oracle reports it with the kinds worstcase_child_rerolled / gradient_child_rerolled, and only when everything
+else about that design is right with the re-drawn neighbour taken as given (KNOWN_FINDINGS.json lists them as open).
 """
 import hashlib
 import math
@@ -20,7 +28,7 @@ THEOREMS = {"Artap.Props.C14": [
     "C14_worstcase_children", "C14_displaced_one_axis", "C14_worstcase_cost_shape", "C14_worstcase_processing_and_calls",
     "C14_gradient_with_resubmission", "C14_worstcase_cost_shape_fresh_batches", "C14_worstcase_no_reprocessing",
     "C14_worstcase_call_budget", "C14_gradient_forward_difference", "C14_gradient_budget",
-    "C14_gradient_no_reprocessing"]}
+    "C14_gradient_no_reprocessing", "C14_worstcase_with_transient_failures", "C14_gradient_with_transient_failures"]}
 AXIOMS_OK = []
 TRUSTED = [
     "Coq 8.16.1 kernel, vm_compute for model evaluation (no native_compute)",
@@ -30,19 +38,29 @@ TRUSTED = [
     "correspondence runs the PrimFloat instance (binary64, round-to-nearest-even) with sum() as CPython 3.12 implements it "
     "(Neumaier compensation on exact floats, plain left fold on numpy.float64 / int items) and compares bit for bit",
     "the step delta is a Section variable under the theorems; the run driver and the direct oracle use 1e-4",
-    "Job.evaluate is abstracted to: costs := f(vector), costs_signed := sgn(costs) ++ [flag], state := EVALUATED; "
-    "f, sgn (sign * np.round(cost, 7)) and the flag are recorded on the implementation and given to the model as a table "
-    "(retry loop, constraints, data store: properties C05/C06)",
+    "Job.evaluate is abstracted to its retry loop over a failure tape (global call number -> re-drawn vector, as Model/Job.v): a failed "
+    "attempt replaces the vector and is counted in the ghost field d_fail; the successful attempt does costs := f(vector), "
+    "costs_signed := sgn(costs) ++ [flag], state := EVALUATED; f, sgn (sign * np.round(cost, 7)) and the flag are recorded on the "
+    "implementation and given to the model as a table, the tape is scripted by the harness (failing call numbers) and recorded (vectors "
+    "returned by gen_vector) (constraints, data store, problem.failed, the RuntimeError after five failures: properties C05/C06)",
     "ghost logs (objective call log, designs post-processed per run() call) are observed by harness-side wrappers of "
     "Problem.evaluate and of the evaluator instance's run()",
 ]
 ASSUMPTIONS = [
     "serial evaluation (options['max_processes'] = 1); the parallel path is property C07",
+    "the theorems about call logs / budgets, resubmission and pre-evaluated designs are stated for runs without transient failures (empty "
+    "failure tape); C14_worstcase_with_transient_failures / C14_gradient_with_transient_failures hold for every tape and batches of fresh designs",
     "C14_worstcase_cost_shape / _processing_and_calls / C14_gradient_with_resubmission cover batches that contain fresh designs, designs "
     "already evaluated by a plain Evaluator and designs submitted again (any number of times, in any order within the batch); within one "
     "batch the submitted objects are pairwise distinct and are designs, not children created by the evaluator; the remaining theorems "
     "(children, no_reprocessing, call budgets, forward difference) are stated for batches of fresh designs",
-    "the objective is a function of the vector, returns a fresh list of exactly len(problem.costs) numbers and does not raise",
+    "the objective is a function of the vector and returns a fresh list of exactly len(problem.costs) numbers; it may fail transiently "
+    "(TimeoutError / RuntimeError, handled by Job's re-draw) at any call, but never five times in a row for one individual (Job then raises "
+    "RuntimeError: C06); any other exception aborts the run (C06)",
+    "OPEN FINDING F13 (KNOWN_FINDINGS.json): a neighbour design whose own evaluation fails transiently is re-drawn by Job at a random point "
+    "of the box, so it is no longer x -/+ tol e_i (x + 1e-4 e_i) and the extra objective / gradient component is computed against that point; "
+    "the theorems with failures state the displacement for every neighbour whose own evaluation never failed, and the full statement when "
+    "no neighbour's evaluation failed",
     "all designs have len(problem.parameters) coordinates and every parameter has a 'tol' entry (worst case); tolerances are floats "
     "(or non-zero ints: an int tolerance 0 gives -1 * 0 = 0 instead of -0.0, which is visible only on a coordinate that is -0.0)",
     "gradient evaluator: batches are non-empty (an empty batch raises IndexError in run(); modelled, not covered by the theorems)",
@@ -119,6 +137,23 @@ def make_objective(spec):
     return g
 
 
+def runs_ok(ks):
+    """no five consecutive call numbers"""
+    ks = set(ks)
+    return not any(all(k + j in ks for j in range(5)) for k in ks)
+
+
+def gen_fails(rng, est, nruns):
+    ks = set()
+    for _ in range(nruns):
+        start = rng.randrange(est)
+        new = set(ks)
+        new.update(range(start, start + rng.choice([1, 1, 1, 2, 3, 4])))
+        if runs_ok(new):
+            ks = new
+    return sorted(ks)
+
+
 def gen_case(rng, forced=None):
     forced = forced or {}
     wc = forced.get("wc", rng.random() < 0.6)
@@ -154,21 +189,37 @@ def gen_case(rng, forced=None):
     flags = {"vec_numpy": rng.random() < 0.1, "reuse_list": rng.random() < 0.25, "shared_param": rng.random() < 0.3,
              "constr": rng.random() < 0.15, "id_collide": rng.random() < 0.15}
     flags.update(forced.get("flags", {}))
-    return {"mode": "direct", "wc": wc, "n": n, "m": m, "tols": tols, "objs": objs, "again": again, "pre": pre, "flags": flags,
+    # scripted transient failures, by GLOBAL call number of the objective (failed calls included): runs of 1..4
+    # consecutive numbers (a run belongs to one job; five in a row would raise RuntimeError: never generated)
+    per = (2 * n + 1) if wc else (n + 1)
+    est = max(1, sum((len(b) + len(a)) * per for b, a in zip(batches, again)))
+    if "fails" in forced:
+        fails = sorted(set(forced["fails"]))
+    elif rng.random() < 0.4:
+        fails = gen_fails(rng, est, rng.choice([1, 1, 2, 3]))
+    else:
+        fails = []
+    return {"mode": "direct", "fails": fails, "seed": forced.get("seed", rng.randrange(10 ** 6)), "wc": wc, "n": n, "m": m, "tols": tols, "objs": objs, "again": again, "pre": pre, "flags": flags,
             "criteria": forced.get("criteria", [rng.choice(["minimize", "maximize"]) for _ in range(m)]),
-            "ret_numpy": forced.get("ret_numpy", rng.random() < 0.2), "int_tol": rng.random() < 0.05,
+            # a re-drawn design holds a Python list: with numpy vectors the objective would return numpy.float64 for some designs
+            # and exact floats for others (sum() then switches algorithm per design): make it return numpy.float64 throughout
+            "ret_numpy": True if (fails and flags["vec_numpy"]) else forced.get("ret_numpy", rng.random() < 0.2),
+            "int_tol": rng.random() < 0.05,
             "batches": batches}
 
 
 def gen_algo_case(rng):
     n = rng.choice([1, 2, 3])
     m = rng.choice([1, 2, 2])
-    return {"mode": rng.choice(["EpsMOEA", "NSGAII"]), "wc": rng.random() < 0.5, "n": n, "m": m,
+    pop, gens = rng.choice([2, 3, 4, 6]), rng.choice([2, 3, 4, 5])
+    wc = rng.random() < 0.5
+    fails = gen_fails(rng, pop * gens * ((2 * n + 1) if wc else (n + 1)), rng.choice([1, 2, 3])) if rng.random() < 0.6 else []
+    return {"mode": rng.choice(["EpsMOEA", "NSGAII"]), "wc": wc, "fails": fails, "n": n, "m": m,
             "tols": [rng.choice([0.25, 0.1, 1e-3, 0.05]) for _ in range(n)],
             "objs": [{"kind": rng.choice(["quad", "lin", "abs", "sin", "prod"]), "a": [rng.choice(COEF[:8]) for _ in range(n)],
                       "b": rng.choice(COEF[:8])} for _ in range(m)],
             "criteria": [rng.choice(["minimize", "maximize"]) for _ in range(m)], "ret_numpy": False, "int_tol": False,
-            "pop": rng.choice([2, 3, 4, 6]), "gens": rng.choice([2, 3, 4, 5]), "seed": rng.randrange(10 ** 6), "batches": None,
+            "pop": pop, "gens": gens, "seed": rng.randrange(10 ** 6), "batches": None,
             "again": None, "pre": None,
             "flags": {"vec_numpy": False, "reuse_list": False, "shared_param": rng.random() < 0.3, "constr": rng.random() < 0.3,
                       "id_collide": False}}
@@ -216,28 +267,46 @@ def run(ctx):
             self.costs = [{'name': 'F%d' % k, 'criteria': c} for k, c in enumerate(case["criteria"])]
             self.fns = [make_objective(s) for s in case["objs"]]
             self.ret_numpy = case["ret_numpy"]
-            self.calls = []          # (Individual object, vector at the call, returned costs)
+            self.calls = []          # (Individual object, vector at the call, returned costs or None, failed?)
+            self.fail_at = set(case.get("fails") or [])      # global call numbers scripted to fail transiently
+            self.rerolls = []        # what gen_vector returned for Job's re-draws, in order
 
         def evaluate_inequality_constraints(self, x):
             return [x[0] - 0.3] if self.constr else []
 
         def evaluate(self, individual):
             v = list(individual.vector)
+            k = len(self.calls)
+            if k in self.fail_at:
+                self.calls.append((individual, v, None, True))
+                raise (RuntimeError if k % 2 == 0 else TimeoutError)("scripted transient failure of call %d" % k)
             c = [g(v) for g in self.fns]
             if self.ret_numpy:
                 c = [np.float64(x) for x in c]
-            self.calls.append((individual, v, list(c)))
+            self.calls.append((individual, v, list(c), False))
             return c
 
     class Direct(Algorithm):
         def run(self):
             pass
 
+    KNOWN_KINDS = ("worstcase_child_rerolled", "gradient_child_rerolled")     # open finding F13
+    known_seen = {k: 0 for k in KNOWN_KINDS}
+    other_failures = [0]
+
     def fail(what, case, kind, **kw):
-        if len(ctx.oracle_failures) < 40:
-            inp = {k: case.get(k) for k in ("mode", "wc", "n", "m", "tols", "objs", "criteria", "batches", "again", "pre")}
-            inp.update(kw)
-            ctx.oracle_failures.append({"what": what, "input": inp, "match": {"kind": kind}})
+        if kind in KNOWN_KINDS:
+            known_seen[kind] += 1
+            if known_seen[kind] > 2:          # counted (ctx.extra), two literal inputs per kind are enough
+                return
+        else:
+            other_failures[0] += 1
+            if other_failures[0] > 40:
+                return
+        inp = {k: case.get(k) for k in ("mode", "wc", "n", "m", "tols", "objs", "criteria", "batches", "again", "pre", "fails", "seed",
+                                        "pop", "gens")}
+        inp.update(kw)
+        ctx.oracle_failures.append({"what": what, "input": inp, "match": {"kind": kind}})
 
     def num(x):
         try:
@@ -245,17 +314,64 @@ def run(ctx):
         except (TypeError, ValueError):
             return float("nan")         # None / malformed entry: cannot be produced by the model at this position
 
+    def vkey(v):
+        return tuple(bits(0.0 + float(t)) for t in v)
+
+    def analyse(problem):
+        """per Individual object: successful / failed objective calls, last returned costs, the vector of its first call,
+        the vector Job re-drew it to after its last failed call (the re-roll tape is aligned with the failed calls)"""
+        A = {"nsucc": {}, "nfail": {}, "ret": {}, "first": {}, "reroll": {}, "tape_ok": True}
+        failed_no = 0
+        for (ind, v, c, failed) in problem.calls:
+            i = id(ind)
+            A["first"].setdefault(i, v)
+            if failed:
+                A["nfail"][i] = A["nfail"].get(i, 0) + 1
+                if failed_no < len(problem.rerolls):
+                    A["reroll"][i] = problem.rerolls[failed_no]
+                else:
+                    A["tape_ok"] = False
+                failed_no += 1
+            else:
+                A["nsucc"][i] = A["nsucc"].get(i, 0) + 1
+                A["ret"][i] = c
+        if failed_no != len(problem.rerolls):
+            A["tape_ok"] = False
+        return A
+
+    f13_reported = set()
+
+    def final_vector_ok(case, A, x, v0, where, prefix):
+        """the stored design is the submitted one, or - when its own evaluation failed - the one Job re-drew"""
+        vf = [float(t) for t in x.vector]
+        exp = A["reroll"].get(id(x)) if A["nfail"].get(id(x), 0) else v0
+        if exp is None or vkey(vf) != vkey(exp):
+            fail("design vector %r after evaluation; required %r (%s)" % (vf, exp, "the vector Job re-drew after the failed call"
+                 if A["nfail"].get(id(x), 0) else "the submitted vector: its evaluation never failed"), case, prefix + "_design_vector", **where)
+            return None
+        return vf
+
     def oracle_wc(case, problem, submitted, upto, n, m):
         """clauses of the property on every design submitted so far (batches 0..upto)"""
         tols = case["tols"]
-        ncalls = {}
-        for (ind, v, c) in problem.calls:
-            ncalls[id(ind)] = ncalls.get(id(ind), 0) + 1
-        ret = {id(ind): c for (ind, v, c) in problem.calls}
+        A = analyse(problem)
+        nsucc, nfail, ret = A["nsucc"], A["nfail"], A["ret"]
+        if not A["tape_ok"]:
+            fail("%d failed objective calls but %d re-draws by Job" % (sum(nfail.values()), len(problem.rerolls)), case, "worstcase_reroll_tape",
+                 after_batch=upto)
         subs = {}
         for bi, batch in enumerate(submitted[:upto + 1]):
             for di, (x, v0) in enumerate(batch):
                 subs.setdefault(id(x), []).append(bi)
+
+        def displaced(v):
+            out = []
+            for i in range(n):
+                for disp in (v[i] - tols[i], v[i] + tols[i]):
+                    w = list(v)
+                    w[i] = disp
+                    out.append(vkey(w))
+            return out
         done_once = set()
         for bi, batch in enumerate(submitted[:upto + 1]):
             for di, (x, v0) in enumerate(batch):
@@ -275,34 +391,62 @@ def run(ctx):
                         fail("evaluated design has %d cost entries (required %d user objectives + 1)" % (len(x.costs), m),
                              case, "worstcase_cost_length", costs=[num(c) for c in x.costs], **where)
                     continue
-                if ncalls.get(id(x), 0) != 1:
-                    fail("design evaluated %d times (required once)" % ncalls.get(id(x), 0), case, "worstcase_calls", **where)
+                if nsucc.get(id(x), 0) != 1:
+                    fail("design evaluated %d times (required once)" % nsucc.get(id(x), 0), case, "worstcase_calls", **where)
                     continue
+                vf = final_vector_ok(case, A, x, v0, where, "worstcase")
+                if vf is None:
+                    continue
+                where = dict(where, final_vector=vf, own_failed_calls=nfail.get(id(x), 0))
                 if [num(c) for c in x.costs[:m]] != [num(c) for c in ret[id(x)]] and not any(math.isnan(num(c)) for c in ret[id(x)]):
                     fail("user objectives in costs differ from what the objective returned", case, "worstcase_user_costs", **where)
                 if len(x.children) != 2 * n:
                     fail("%d neighbour designs (required 2n = %d)" % (len(x.children), 2 * n), case, "worstcase_children_count", **where)
                     continue
                 ok = True
-                # 2n neighbours: on every axis one displaced by -tolerance and one by +tolerance (as a multiset: the
-                # property does not fix their order)
-                want = []
-                for i in range(n):
-                    for disp in (v0[i] - tols[i], v0[i] + tols[i]):
-                        w = list(v0)
-                        w[i] = disp
-                        want.append(tuple(0.0 + t for t in w))
-                got = [tuple(0.0 + float(t) for t in ch.vector) for ch in x.children]
-                if sorted(got) != sorted(want):
-                    fail("neighbours %r, required one design displaced by -tolerance and one by +tolerance on every axis: %r"
-                         % ([list(g) for g in got], [list(w) for w in want]), case, "worstcase_displacement", **where)
+                # 2n neighbours: on every axis one displaced by -tolerance and one by +tolerance FROM THE STORED DESIGN (as a
+                # multiset: the property does not fix their order).  A neighbour whose OWN evaluation failed was re-drawn by
+                # Job (open finding F13): it must have been created at one of the displaced positions and must now sit at the
+                # vector Job drew for it; everything else is judged with that neighbour taken as given.
+                rem = displaced(vf)
+                clean, redrawn = [], []
+                for k, ch in enumerate(x.children):
+                    cv = vkey(ch.vector)
+                    if nfail.get(id(ch), 0):
+                        redrawn.append(k)
+                        created = vkey(A["first"][id(ch)])
+                        if created in rem:
+                            rem.remove(created)
+                        else:
+                            clean.append(created)          # created somewhere else: reported below as a displacement error
+                            ok = False
+                        if A["reroll"].get(id(ch)) is None or cv != vkey(A["reroll"][id(ch)]):
+                            fail("neighbour %d failed %d time(s) and is at %r, but Job re-drew it to %r" % (k, nfail[id(ch)], list(ch.vector), A["reroll"].get(id(ch))),
+                                 case, "worstcase_child_vector", **where)
+                            ok = False
+                    else:
+                        clean.append(cv)
+                        if cv in rem:
+                            rem.remove(cv)
+                        else:
+                            ok = False
+                if not ok or rem:
+                    around_old = nfail.get(id(x), 0) and vkey(v0) != vkey(vf) and all(c in displaced(v0) for c in clean)
+                    got = [[float(t) for t in ch.vector] for ch in x.children]
+                    if around_old:
+                        fail("the design's own evaluation failed and Job re-drew it from %r to %r, but its neighbours %r are displaced from "
+                             "the abandoned position (required: -/+ tolerance from the stored design)" % (v0, vf, got),
+                             case, "worstcase_design_rerolled", **where)
+                    else:
+                        fail("neighbours %r, required one design displaced by -tolerance and one by +tolerance on every axis of %r"
+                             % (got, vf), case, "worstcase_displacement", **where)
                     ok = False
                 for k, ch in enumerate(x.children):
                     if len(ch.parents) != 1 or ch.parents[0] is not x:
                         fail("neighbour %d is not linked to its design through parents" % k, case, "worstcase_parent_link", **where)
                         ok = False
-                    if ncalls.get(id(ch), 0) != 1:
-                        fail("neighbour %d evaluated %d times (required once)" % (k, ncalls.get(id(ch), 0)), case, "worstcase_calls", **where)
+                    if nsucc.get(id(ch), 0) != 1:
+                        fail("neighbour %d evaluated %d times (required once)" % (k, nsucc.get(id(ch), 0)), case, "worstcase_calls", **where)
                         ok = False
                 if not ok:
                     continue
@@ -312,24 +456,40 @@ def run(ctx):
                 if not close(x.costs[-1], s):
                     fail("extra objective %r, sum of |f(x) - f(neighbour)| recomputed from the recorded neighbours %r" % (num(x.costs[-1]), num(s)),
                          case, "worstcase_sum", **where)
+                    ok = False
                 if 'sensitivity' not in x.features or not close(x.features['sensitivity'], s):
                     fail("features['sensitivity'] %r, recomputed sum %r" % (x.features.get('sensitivity'), num(s)), case, "worstcase_feature", **where)
+                    ok = False
                 sc = x.costs_signed
                 if len(sc) != m + 2 or isinstance(sc[-2], (bool, np.bool_)) or not close(sc[-2], x.costs[-1]) or not isinstance(sc[-1], (bool, np.bool_)):
                     fail("costs_signed %r: required %d signed user objectives, the extra objective, the feasibility flag" % (sc, m),
                          case, "worstcase_signed_shape", **where)
+                    ok = False
+                if ok and redrawn and id(x) not in f13_reported:
+                    f13_reported.add(id(x))
+                    hist["f13_designs"] += 1
+                    k = redrawn[0]
+                    fail("neighbour %d of the design %r was created at %r, its own evaluation failed %d time(s) and Job re-drew it to %r: it is "
+                         "not displaced by -/+ tolerance and the extra objective %r is computed against it (everything else about the design is right)"
+                         % (k, vf, list(A["first"][id(x.children[k])]), nfail[id(x.children[k])], [float(t) for t in x.children[k].vector], num(x.costs[-1])),
+                         case, "worstcase_child_rerolled", neighbour=k, **where)
         total = sum(len(b) for b in submitted[:upto + 1])
-        if len(problem.calls) != len(done_once) + 2 * n * total:
-            fail("%d objective calls for %d designs and %d submissions (required 1 per design + 2n per submission = %d)"
-                 % (len(problem.calls), len(done_once), total, len(done_once) + 2 * n * total), case, "worstcase_budget", after_batch=upto)
+        good = sum(nsucc.values())
+        if good != len(done_once) + 2 * n * total:
+            fail("%d successful objective calls for %d designs and %d submissions (required 1 per design + 2n per submission = %d)"
+                 % (good, len(done_once), total, len(done_once) + 2 * n * total), case, "worstcase_budget", after_batch=upto)
 
     def oracle_grad(case, problem, submitted, upto, n, m):
-        by_vec = {}
-        for (ind, v, c) in problem.calls:
-            by_vec[tuple(bits(t) for t in v)] = c
-        ncalls = {}
-        for (ind, v, c) in problem.calls:
-            ncalls[id(ind)] = ncalls.get(id(ind), 0) + 1
+        A = analyse(problem)
+        nsucc, nfail, ret = A["nsucc"], A["nfail"], A["ret"]
+        if not A["tape_ok"]:
+            fail("%d failed objective calls but %d re-draws by Job" % (sum(nfail.values()), len(problem.rerolls)), case, "gradient_reroll_tape",
+                 after_batch=upto)
+
+        def stepped(v, i):
+            w = list(v)
+            w[i] = v[i] + DELTA
+            return w
         done_once = set()
         for bi, batch in enumerate(submitted[:upto + 1]):
             for di, (x, v0) in enumerate(batch):
@@ -341,26 +501,63 @@ def run(ctx):
                 if g is None or len(g) != n:
                     fail("no gradient of length n stored in features['gradient']", case, "gradient_missing", **where)
                     continue
-                if ncalls.get(id(x), 0) != 1 or len(x.costs) != m:
-                    fail("design evaluated %d times, %d cost entries (required 1 and %d)" % (ncalls.get(id(x), 0), len(x.costs), m),
+                if nsucc.get(id(x), 0) != 1 or len(x.costs) != m:
+                    fail("design evaluated %d times, %d cost entries (required 1 and %d)" % (nsucc.get(id(x), 0), len(x.costs), m),
                          case, "gradient_design_eval", **where)
                     continue
-                fx = by_vec[tuple(bits(t) for t in v0)][0]
-                for i in range(n):
-                    w = list(v0)
-                    w[i] = v0[i] + DELTA
-                    key = tuple(bits(t) for t in w)
-                    if key not in by_vec:
-                        fail("objective never evaluated at x + 1e-4 e_%d = %r" % (i, w), case, "gradient_step", **where)
+                vf = final_vector_ok(case, A, x, v0, where, "gradient")
+                if vf is None:
+                    continue
+                where = dict(where, final_vector=vf, own_failed_calls=nfail.get(id(x), 0))
+                if len(x.children) != n:
+                    fail("%d displaced designs (required n = %d)" % (len(x.children), n), case, "gradient_children_count", **where)
+                    continue
+                fx = ret[id(x)][0]
+                ok, redrawn = True, []
+                for i, ch in enumerate(x.children):
+                    cv = vkey(ch.vector)
+                    w = stepped(vf, i)
+                    if nsucc.get(id(ch), 0) != 1:
+                        fail("displaced design %d evaluated %d times (required once)" % (i, nsucc.get(id(ch), 0)), case, "gradient_calls", **where)
+                        ok = False
                         continue
-                    want = (by_vec[key][0] - fx) / DELTA
+                    if nfail.get(id(ch), 0):
+                        # F13: re-drawn after a failure of its own evaluation; created at x + 1e-4 e_i, now where Job put it
+                        if vkey(A["first"][id(ch)]) != vkey(w) or A["reroll"].get(id(ch)) is None or cv != vkey(A["reroll"][id(ch)]):
+                            fail("displaced design %d failed %d time(s): created at %r (required %r), now at %r, Job re-drew it to %r"
+                                 % (i, nfail[id(ch)], list(A["first"][id(ch)]), w, list(ch.vector), A["reroll"].get(id(ch))),
+                                 case, "gradient_child_vector", **where)
+                            ok = False
+                            continue
+                        redrawn.append(i)
+                    elif cv != vkey(w):
+                        if nfail.get(id(x), 0) and vkey(v0) != vkey(vf) and cv == vkey(stepped(v0, i)):
+                            fail("the design's own evaluation failed and Job re-drew it from %r to %r, but displaced design %d is %r = abandoned "
+                                 "position + 1e-4 e_%d: gradient[%d] = %r mixes the two positions" % (v0, vf, i, list(ch.vector), i, i, float(g[i])),
+                                 case, "gradient_design_rerolled", **where)
+                        else:
+                            fail("objective never evaluated at x + 1e-4 e_%d = %r for the stored design x = %r (displaced design %d is %r)"
+                                 % (i, w, vf, i, [float(t) for t in ch.vector]), case, "gradient_step", **where)
+                        ok = False
+                        continue
+                    want = (ret[id(ch)][0] - fx) / DELTA
                     if not close(g[i], want):
                         fail("gradient[%d] = %r, forward difference (f(x + 1e-4 e_i) - f(x)) / 1e-4 of the first objective = %r" % (i, float(g[i]), float(want)),
                              case, "gradient_value", **where)
+                        ok = False
+                if ok and redrawn and id(x) not in f13_reported:
+                    f13_reported.add(id(x))
+                    hist["f13_designs"] += 1
+                    i = redrawn[0]
+                    fail("displaced design %d of the design %r was created at x + 1e-4 e_%d, its own evaluation failed %d time(s) and Job re-drew it to "
+                         "%r: gradient[%d] = %r is (f(that point) - f(x)) / 1e-4 (everything else about the design is right)"
+                         % (i, vf, i, nfail[id(x.children[i])], [float(t) for t in x.children[i].vector], i, float(g[i])),
+                         case, "gradient_child_rerolled", neighbour=i, **where)
         total = sum(len(b) for b in submitted[:upto + 1])
-        if len(problem.calls) != len(done_once) + n * total:
-            fail("%d objective calls for %d designs and %d submissions (required 1 per design + n per submission = %d)"
-                 % (len(problem.calls), len(done_once), total, len(done_once) + n * total), case, "gradient_budget", after_batch=upto)
+        good = sum(nsucc.values())
+        if good != len(done_once) + n * total:
+            fail("%d successful objective calls for %d designs and %d submissions (required 1 per design + n per submission = %d)"
+                 % (good, len(done_once), total, len(done_once) + n * total), case, "gradient_budget", after_batch=upto)
 
     def oracle_proc(case, proc, submitted):
         seen = {}
@@ -379,10 +576,39 @@ def run(ctx):
                          case, "worstcase_reprocess" if case["wc"] else "gradient_reprocess", batch=bi, design=di, vector=v0)
                     return
 
+    import artap.job as ajob
+    REAL_VN = ajob.VectorAndNumbers
+    current = [None]
+
+    class VNProxy:
+        """harness-side recording of Job's re-draw (job.py calls VectorAndNumbers.gen_vector(parameters))"""
+        @staticmethod
+        def gen_vector(parameters):
+            v = REAL_VN.gen_vector(parameters)
+            if current[0] is not None:
+                current[0].rerolls.append([float(t) for t in v])
+            return v
+
+        def __getattr__(self, name):
+            return getattr(REAL_VN, name)
+
     def implementation(case):
+        import contextlib
+        import io
+        ajob.VectorAndNumbers = VNProxy()
+        try:
+            with contextlib.redirect_stdout(io.StringIO()):      # Job prints "Job: error: ..." for every handled failure
+                return implementation_(case)
+        finally:
+            ajob.VectorAndNumbers = REAL_VN
+            current[0] = None
+
+    def implementation_(case):
         n, m = case["n"], case["m"]
         del signed_rec[:]
         problem = Prob(case=case)
+        current[0] = problem
+        pyrandom.seed(case["seed"])          # gen_vector (Job's re-draw) uses the global generator
         et = EvaluatorType.WORST_CASE if case["wc"] else EvaluatorType.GRADIENT
         submitted, proc = [], []
         raised = None
@@ -489,7 +715,8 @@ def run(ctx):
         def cell(x):
             g = x.features.get('gradient')
             s = x.features.get('sensitivity')
-            return {"vec": [num(t) for t in x.vector], "costs": [num(t) for t in x.costs],
+            return {"fail": sum(1 for (ind, _, _, failed) in problem.calls if failed and ind is x),
+                    "vec": [num(t) for t in x.vector], "costs": [num(t) for t in x.costs],
                     "signed": [bool(t) if isinstance(t, (bool, np.bool_)) else num(t) for t in x.costs_signed],
                     "evaluated": x.state == Individual.State.EVALUATED,
                     "parents": [number.get(id(p), UNKNOWN) for p in x.parents],
@@ -502,14 +729,18 @@ def run(ctx):
                 continue
             seen.add(key)
             table.append(([num(t) for t in v], [num(t) for t in c], [num(t) for t in sc[:-1]], bool(sc[-1])))
-        kinds0 = set(type(c[0]) is float for (_, _, c) in problem.calls)
+        kinds0 = set(type(c[0]) is float for (_, _, c, failed) in problem.calls if not failed)
         if len(kinds0) > 1:
             raise AssertionError("first objective returns exact floats for some vectors and other numbers for others")
         case["comp"] = kinds0 == {True}
         obs = None if raised else {
-            "cells": [cell(x) for x in order], "log": [[num(t) for t in v] for (_, v, _) in problem.calls],
+            "cells": [cell(x) for x in order], "log": [[num(t) for t in v] for (_, v, _, _) in problem.calls],
             "proc": [[number.get(id(o), UNKNOWN) for o in lst] for lst in proc],
             "n_inds": len(ev.individuals), "n_todo": len(ev.to_evaluate), "idss": idss}
+        failed_calls = [k for k, (_, _, _, failed) in enumerate(problem.calls) if failed]
+        case["tape"] = [[k, w] for k, w in zip(failed_calls, problem.rerolls)]
+        if len(failed_calls) != len(problem.rerolls):
+            raise AssertionError("%d failed objective calls, %d re-draws through gen_vector" % (len(failed_calls), len(problem.rerolls)))
         problem.cleanup()
         problem.working_dir = ""
         return obs, table
@@ -522,14 +753,14 @@ def run(ctx):
 
     def enc_cell(c):
         return pl(enc_vec(c["vec"]), enc_vec(c["costs"]), ll(c["signed"], enc_sv), bl(c["evaluated"]), ll(c["parents"], nl),
-                  ll(c["children"], nl), optl(c["sens"], fl), optl(c["grad"], enc_vec))
+                  ll(c["children"], nl), optl(c["sens"], fl), optl(c["grad"], enc_vec), nl(c["fail"]))
 
     def encode(case, obs, table):
-        c = "{| c_wc := %s; c_comp := %s; c_m := %s; c_tols := %s; c_table := %s; c_batches := %s; c_again := %s; c_pre := %s |}" % (
+        c = "{| c_wc := %s; c_comp := %s; c_m := %s; c_tols := %s; c_table := %s; c_batches := %s; c_again := %s; c_pre := %s; c_fails := %s |}" % (
             bl(case["wc"]), bl(case["comp"]), nl(case["m"]), enc_vec(case["tols"]),
             ll(table, lambda t: pl(enc_vec(t[0]), enc_vec(t[1]), enc_vec(t[2]), bl(t[3]))),
             ll(case["batches"], lambda b: ll(b, enc_vec)), ll(case["again"], lambda l: ll(l, nl)),
-            ll(case["pre"], lambda l: ll(l, bl)))
+            ll(case["pre"], lambda l: ll(l, bl)), ll(case["tape"], lambda kw: pl(nl(kw[0]), enc_vec(kw[1]))))
         if obs is None:
             return c, "None"
         e = "(Some %s)" % pl(ll(obs["cells"], enc_cell), ll(obs["log"], enc_vec), ll(obs["proc"], lambda l: ll(l, nl)),
@@ -540,7 +771,9 @@ def run(ctx):
     hist = {"worst_case": 0, "gradient": 0, "batches": {}, "designs_per_case": {}, "n": {}, "m": {}, "objective_kinds": {},
             "algorithm_runs": {}, "objective_calls": 0, "cells": 0, "raised_index_error": 0, "zero_sensitivity": 0,
             "nonfinite_values": 0, "duplicate_vectors_in_case": 0,
-            "resubmission_cases": 0, "pre_evaluated_cases": 0, "flags": {}}
+            "resubmission_cases": 0, "pre_evaluated_cases": 0, "flags": {},
+            "cases_with_transient_failures": 0, "failed_calls": 0, "failure_runs_by_length": {}, "failed_calls_on_designs": 0,
+            "failed_calls_on_neighbours": 0, "f13_designs": 0}
 
     def bump(d, k):
         d[str(k)] = d.get(str(k), 0) + 1
@@ -559,7 +792,7 @@ def run(ctx):
         c, e = encode(case, obs, table)
         cases.append(c)
         expected.append(e)
-        mt = {k: case[k] for k in ("mode", "wc", "n", "m", "tols", "objs", "criteria", "batches", "again", "pre", "flags")}
+        mt = {k: case[k] for k in ("mode", "wc", "n", "m", "tols", "objs", "criteria", "batches", "again", "pre", "flags", "fails", "tape")}
         for k in ("pop", "gens", "seed"):
             if k in case:
                 mt[k] = case[k]
@@ -575,6 +808,19 @@ def run(ctx):
         bump(hist["m"], case["m"])
         for o in case["objs"]:
             bump(hist["objective_kinds"], o["kind"])
+        tape_ks = [k for k, _ in case["tape"]]
+        if tape_ks:
+            hist["cases_with_transient_failures"] += 1
+            hist["failed_calls"] += len(tape_ks)
+            run = 0
+            for k in tape_ks:
+                run = run + 1 if (k - 1) in tape_ks else 1
+                if (k + 1) not in tape_ks:
+                    bump(hist["failure_runs_by_length"], run)
+            if obs is not None:
+                kids = set(c for cl in obs["cells"] for c in cl["children"])
+                for ci, cl in enumerate(obs["cells"]):
+                    hist["failed_calls_on_neighbours" if (ci in kids or cl["parents"]) else "failed_calls_on_designs"] += cl["fail"]
         hist["resubmission_cases"] += any(case["again"])
         hist["pre_evaluated_cases"] += any(any(p) for p in case["pre"])
         for k, v in case["flags"].items():
@@ -582,6 +828,7 @@ def run(ctx):
                 bump(hist["flags"], k)
         if case["mode"] != "direct":
             bump(hist["algorithm_runs"], case["mode"] + ("/worst_case" if case["wc"] else "/gradient"))
+            hist["algorithm_runs_with_failed_calls"] = hist.get("algorithm_runs_with_failed_calls", 0) + bool(tape_ks)
         if obs is None:
             hist["raised_index_error"] += 1
         else:
@@ -593,7 +840,8 @@ def run(ctx):
             hist["duplicate_vectors_in_case"] += len(vs) != len(set(vs))
         key = (case["mode"], case["wc"], case["n"], case["m"], tuple(case["tols"]),
                tuple((o["kind"], tuple(o["a"]), o["b"]) for o in case["objs"]),
-               tuple(tuple(tuple(v) for v in b) for b in case["batches"]), tuple(tuple(a) for a in case["again"]), tuple(tuple(a) for a in case["pre"]))
+               tuple(tuple(tuple(v) for v in b) for b in case["batches"]), tuple(tuple(a) for a in case["again"]), tuple(tuple(a) for a in case["pre"]),
+               tuple(tape_ks))
         ctx.count(key, nontrivial=(len(case["batches"]) >= 2 and obs is not None))
         if len(case["batches"]) == 2 and nd <= 3 and case["mode"] == "direct" and obs is not None and not any(case["again"]):
             ctx.sample(mt, limit=3)
@@ -641,6 +889,30 @@ def run(ctx):
          "flags": dict(OFF, vec_numpy=True, constr=True, id_collide=True)},
     ]
     for f in corpus:
+        add(gen_case(rng, dict({"flags": OFF, "fails": []}, **dict(f, criteria=["minimize", "maximize"][:f["m"]], ret_numpy=False))))
+    # scripted transient failures (global call numbers).  Worst case, one design of 2 parameters: call 0 = the design,
+    # calls 1..4 = its neighbours; gradient: call 0 = the design, calls 1..2 = the displaced designs.
+    b1 = [[[0.5, 0.25]]]
+    b2 = [[[0.5, 0.25], [0.1, 0.2]], [[1.0, -0.5]]]
+    failing = [
+        {"wc": True, "n": 2, "m": 1, "tols": [0.25, 0.5], "objs": q1, "batches": b1, "fails": [2]},              # F13: a neighbour re-drawn
+        {"wc": False, "n": 2, "m": 1, "tols": [0.1, 0.1], "objs": q1, "batches": b1, "fails": [2]},              # F13, gradient form
+        {"wc": True, "n": 2, "m": 2, "tols": [0.25, 0.5], "objs": q2, "batches": b1, "fails": [0]},              # the design itself (RT C14/1)
+        {"wc": False, "n": 2, "m": 2, "tols": [0.1, 0.1], "objs": q2, "batches": b1, "fails": [0]},              # the design itself (F14)
+        {"wc": True, "n": 2, "m": 1, "tols": [0.25, 0.5], "objs": q1, "batches": b1, "fails": [0, 1, 2, 3]},     # four in a row on the design
+        {"wc": False, "n": 2, "m": 1, "tols": [0.1, 0.1], "objs": q1, "batches": b1, "fails": [0, 1, 2, 3]},
+        {"wc": True, "n": 2, "m": 1, "tols": [0.25, 0.5], "objs": q1, "batches": b1, "fails": [1, 2, 3, 4]},     # four in a row on a neighbour
+        {"wc": True, "n": 2, "m": 2, "tols": [0.25, 0.5], "objs": q2, "batches": b2, "fails": [1, 2, 10, 12]},   # second design of batch 0, a neighbour, batch 1
+        {"wc": False, "n": 2, "m": 2, "tols": [0.25, 0.5], "objs": q2, "batches": b2, "fails": [1, 2, 8]},
+        {"wc": True, "n": 2, "m": 2, "tols": [0.25, 0.5], "objs": q2, "batches": b2, "fails": [0, 3], "again": [[], [0]]},   # failures + resubmission
+        {"wc": True, "n": 2, "m": 2, "tols": [0.25, 0.25], "objs": q2, "batches": [[[0.5, 0.5], [0.1, 0.2]], [[0.5, 0.5]]],
+         "pre": [[True, False], [True]], "fails": [0, 1], "flags": dict(OFF, shared_param=True)},                              # the plain Evaluator's call fails
+        {"wc": False, "n": 2, "m": 1, "tols": [0.1, 0.1], "objs": q1, "batches": [[[0.5, 0.5], [0.1, 0.2]], [[0.3, 0.3]]],
+         "pre": [[False, True], [False]], "fails": [0, 2], "flags": dict(OFF, reuse_list=True, constr=True)},
+        {"wc": True, "n": 1, "m": 1, "tols": [0.1], "objs": q1, "batches": [[[0.5]], [[0.5]]], "fails": [0, 3],
+         "flags": dict(OFF, vec_numpy=True, id_collide=True)},
+    ]
+    for f in failing:
         add(gen_case(rng, dict({"flags": OFF}, **dict(f, criteria=["minimize", "maximize"][:f["m"]], ret_numpy=False))))
     for _ in range(ctx.pick(450, 6000)):
         add(gen_case(rng))
@@ -655,22 +927,33 @@ def run(ctx):
                 "coefficients, pushed through Algorithm.evaluate with EvaluatorType.WORST_CASE / GRADIENT, plus short EpsMOEA / NSGAII runs "
                 "with either evaluator (generations = batches) and a hand-written corpus; side streams: evaluated designs submitted again (12%%), "
                 "designs evaluated by a plain Evaluator first (10%%), numpy vectors, one re-used batch list object, a shared parameter dict, "
-                "an inequality constraint, colliding ids; a case is non-trivial when it has at least two "
+                "an inequality constraint, colliding ids; scripted transient failures of the objective (40%% of the direct cases, 60%% of the "
+                "algorithm runs, 13 directed corpus cases: 1..3 runs of 1..4 consecutive global call numbers, on designs and on neighbours, with "
+                "resubmission / pre-evaluation / numpy vectors as well); a case is non-trivial when it has at least two "
                 "batches and did not raise; distinct = distinct (mode, evaluator, tolerances, objectives, batches)"
                 % (len(VGRID), TOLS, sorted(set(FAMILIES))))
+    hist["f13_reports"] = dict(known_seen)
     ctx.extra.update({"input_distribution": hist})
 
 
-LEVEL_TEXT = ("Machine-checked Coq theorems over a heap-and-work-list model of Evaluator / WorstCaseEvaluator / GradientEvaluator, for every "
-              "objective function, every tolerance list, every dimension, every number of objectives, every arithmetic (abstract operators) and "
-              "every finite sequence of batches of fresh designs: the 2n neighbours and their displacements and parent links, the cost vector "
-              "f(x) ++ [sum |f0(x) - f0(neighbour)|] of length m+1 and the m+2 signed entries after any number of further batches, empty work "
-              "lists between batches, each design post-processed by exactly the run() call of its own batch, the exact objective call log "
-              "((1+2n) resp. (1+n) calls per design), and the stored gradient as the forward quotient (f0(x + 1e-4 e_i) - f0(x)) / 1e-4; the cost "
-              "shape, the processing log and the call log are also proved for histories in which batches contain already evaluated designs and "
-              "designs submitted again (m+1 costs however often a design is processed; #designs + 2n * #submissions calls). "
-              "The model is tied to operators.py on every run by evaluating it in Coq (binary64 instance) on generated batch sequences and "
-              "short EpsMOEA / NSGAII runs and comparing every reachable Individual, the call log and the work lists bit for bit.")
-LEVEL_NOTE = ("Trusted: Coq kernel + vm_compute; the hand-written model and the Python harness; Job.evaluate abstracted (objective and sign "
-              "conversion as a recorded table). Batches consist of not-yet-evaluated designs; serial evaluation. The correspondence is sampled, "
-              "the theorems are unbounded.")
+LEVEL_TEXT = ("Machine-checked Coq theorems over a heap-and-work-list model of Evaluator / WorstCaseEvaluator / GradientEvaluator (repaired code: "
+              "F2, F11, F14), for every objective function, every tolerance list, every dimension, every number of objectives, every arithmetic "
+              "(abstract operators) and every finite sequence of batches of fresh designs: the 2n neighbours and their displacements and parent "
+              "links, the cost vector f(x) ++ [sum |f0(x) - f0(neighbour)|] of length m+1 and the m+2 signed entries after any number of further "
+              "batches, empty work lists between batches, each design post-processed by exactly the run() call of its own batch, the exact "
+              "objective call log ((1+2n) resp. (1+n) calls per design), and the stored gradient as the forward quotient "
+              "(f0(x + 1e-4 e_i) - f0(x)) / 1e-4; the cost shape, the processing log and the call log are also proved for histories in which "
+              "batches contain already evaluated designs and designs submitted again (m+1 costs however often a design is processed). "
+              "For EVERY schedule of transient objective failures (re-draws by Job; no five in a row) the children / cost-shape / gradient "
+              "statements are proved relative to the design's FINAL vector: every neighbour whose own evaluation never failed is at the stated "
+              "displacement from it, the extra objective / gradient is computed over the current children, m+1 costs, no re-processing; when "
+              "no neighbour's own evaluation failed this is the full statement. "
+              "The model is tied to operators.py on every run by evaluating it in Coq (binary64 instance) on generated batch sequences with "
+              "scripted transient failures (on designs and on neighbours) and short EpsMOEA / NSGAII runs and comparing every reachable "
+              "Individual, the call log, the failure counts and the work lists bit for bit.")
+LEVEL_NOTE = ("Trusted: Coq kernel + vm_compute; the hand-written model and the Python harness; Job.evaluate abstracted to its retry loop over a "
+              "recorded failure tape (objective and sign conversion as a recorded table). Serial evaluation. OPEN FINDING F13 (not fixed, "
+              "KNOWN-FINDING on every run): a neighbour whose own evaluation fails transiently is re-drawn by Job at a random point (C06's "
+              "replacement rule), so for such a neighbour the clause 'displaced by plus and minus the tolerance' and the sum / gradient over "
+              "displaced designs do not hold; the theorems with failures are exact about it (ghost counter d_fail). Call-log / budget and "
+              "resubmission theorems are for runs without failures. The correspondence is sampled, the theorems are unbounded.")
